@@ -296,6 +296,7 @@ struct CMach {
     substs: Vec<Option<*mut Subst>>,
     /// number of owned references the harness holds (valid handles only)
     owned: u64,
+    created: std::time::Instant,
 }
 
 struct Ctx {
@@ -348,7 +349,7 @@ impl CMach {
         if cfg.vars > 0 {
             unsafe { (api.addvars)(m, cfg.vars) };
         }
-        CMach { kind: cfg.kind, api, q, m, cfg: cfg.clone(), regs: vec![None; NREGS], substs: vec![None; NSUBST], owned: 0 }
+        CMach { kind: cfg.kind, api, q, m, cfg: cfg.clone(), regs: vec![None; NREGS], substs: vec![None; NSUBST], owned: 0, created: std::time::Instant::now() }
     }
     fn reg(&self, r: Reg) -> H {
         self.regs.get(r as usize).copied().flatten().unwrap_or(INVALID)
@@ -964,6 +965,11 @@ impl CMach {
             // manager reference counting: one more reference, then drop both
             let m2 = (self.api.mref)(self.m);
             (self.api.munref)(m2);
+            // a manager released before its collector thread has parked leaks that thread
+            let min = std::time::Duration::from_micros(oxsim::run::manager_min_lifetime_us());
+            while self.created.elapsed() < min {
+                std::thread::yield_now();
+            }
             (self.api.munref)(self.m);
         }
     }
